@@ -318,7 +318,18 @@ class Sem(object):
                         continue
             if pm[0] == pu[0] and pm[1] > pu[1] and not self._in_cycle(cfg, pu[0]):
                 continue
-            if self._reaches(cfg, pc[0], pm[0]) and self._reaches(cfg, pm[0], pu[0]):
+            # a path guard -> modification -> use that does not re-evaluate the guard in between
+            if pm[0] == pc[0]:
+                if pm[1] > pc[1] and (pu[0] != pc[0] or pu[1] > pm[1] or self._in_cycle(cfg, pc[0])):
+                    return True
+                continue
+            avoid = {pc[0]}
+            from_guard = any(s is not None and (s == pm[0] or cfg.reaches(s, pm[0], avoid=avoid)) for s in cfg.blocks[pc[0]].succ)
+            to_use = pm[0] == pu[0] or cfg.reaches(pm[0], pu[0], avoid=avoid)
+            if pm[0] == pu[0] and pm[1] > pu[1]:
+                # later in the same block: only reaches the use through a cycle that avoids the guard
+                to_use = any(s is not None and cfg.reaches(s, pu[0], avoid=avoid) for s in cfg.blocks[pm[0]].succ)
+            if from_guard and to_use:
                 return True
         return False
 
@@ -404,6 +415,44 @@ class Sem(object):
                         break
             if not dead:
                 out.add((t, ap))
+        # structural facts: the use sits inside the then/else branch of an if (or a loop body / ternary arm);
+        # this also covers conditions CFG edge-dominance cannot attribute (a || b taken as a whole)
+        if use_id is not None:
+            un = fn.nodes.get(use_id)
+            child = un
+            anc = un.p if un is not None else None
+            while anc is not None:
+                cn = None
+                pol = None
+                if anc.k == 'if' and len(anc.c) >= 5:
+                    if child is anc.c[3]:
+                        cn, pol = anc.c[2], True
+                    elif child is anc.c[4]:
+                        cn, pol = anc.c[2], False
+                elif anc.k == 'cond' and len(anc.c) == 3:
+                    if child is anc.c[1]:
+                        cn, pol = anc.c[0], True
+                    elif child is anc.c[2]:
+                        cn, pol = anc.c[0], False
+                if cn is not None:
+                    cid = None
+                    for y in cn.walk():
+                        if cfg.pos.get(y.id) is not None:
+                            cid = y.id
+                    tmp = []
+                    decompose(cn, pol, tmp, self.resolver(fn))
+                    for (an, ap) in tmp:
+                        t = term(an)
+                        dead = cid is None
+                        if not dead:
+                            for lid in term_vars(t):
+                                if self.modified_between(fn, lid, cid, use_id):
+                                    dead = True
+                                    break
+                        if not dead:
+                            out.add((t, ap))
+                child = anc
+                anc = anc.p
         # validator calls that dominate the position
         if depth < 4:
             dom = cfg.dominators()
